@@ -138,6 +138,58 @@ def mk_val(t, v):
     raise ValueError(k)
 
 
+def plain(t, v):
+    """plain python spelling of a value: ints, lists, bytes; containers / unions stay views built from plain parts"""
+    k = kind(t)
+    if isinstance(t, str):
+        return int(v)
+    if k in ('bv', 'bl'):
+        return [c == '1' for c in v[1:]]
+    if k in ('Bv', 'Bl'):
+        return bytes.fromhex(v[1:])
+    if k in ('vec', 'list'):
+        return [plain(t[1], x) for x in v[1:]]
+    if k == 'cont':
+        T = mk_type(t)
+        if len(v) - 1 != len(t) - 1:
+            raise ValueError("field count")
+        return T(**{'f%d' % i: plain(ft, x) for i, (ft, x) in enumerate(zip(t[1:], v[1:]))})
+    if k == 'union':
+        return mk_val(t, v)
+    raise ValueError(k)
+
+
+def mk_val_spelled(t, v, spell):
+    T = mk_type(t)
+    k = kind(t)
+    if spell == 'views':
+        return mk_val(t, v)
+    if isinstance(t, str) or k in ('cont', 'union'):
+        p = plain(t, v)
+        return p if k in ('cont', 'union') else T(p)
+    p = plain(t, v)
+    if spell == 'py':
+        return T(p)
+    if spell == 'args':
+        return T(*p) if not isinstance(p, bytes) else T(*list(p))
+    if spell == 'gen':
+        return T(x for x in p)
+    if spell == 'tuple':
+        return T(tuple(p))
+    if spell in ('bytes', 'hex'):
+        raw = p if isinstance(p, bytes) else bytes(p)
+        return T(raw) if spell == 'bytes' else T('0x' + raw.hex())
+    raise ValueError(spell)
+
+
+def run_ctor(t, spell, v):
+    try:
+        x = mk_val_spelled(t, v, spell)
+    except Exception:
+        return 'p.ctor=err'
+    return 'p.ctor=ok;p.root=%s;p.bytes=%s;p.read=%s' % (E(lambda: x.hash_tree_root().hex()), E(lambda: x.encode_bytes().hex()), E(lambda: to_val(t, x)))
+
+
 def mk_val_any(v):
     return uint8(int(v)) if isinstance(v, str) and v.isdigit() else uint8(0)
 
@@ -370,22 +422,59 @@ def run_type(t):
     return ';'.join(out)
 
 
+def foreign_type(t, v):
+    """a type of the same kind in which the (invalid for t) value v is valid: wider uint, other limit / length"""
+    k = kind(t)
+    if isinstance(t, str):
+        n = int(v)
+        for name, w in (('u8', 1), ('u16', 2), ('u32', 4), ('u64', 8), ('u128', 16), ('u256', 32)):
+            if n < (1 << (8 * w)) and name != t:
+                return name
+        return None
+    if k in ('bv', 'bl'):
+        return [k, max(len(v) - 1, 1)]
+    if k in ('Bv', 'Bl'):
+        return [k, max((len(v) - 1) // 2, 1)]
+    if k in ('vec', 'list'):
+        return [k, t[1], max(len(v) - 1, 1)]
+    return None
+
+
+def elem_arg(t, v):
+    """the argument handed to a mutator for element type t: a view of t when v is valid for t; otherwise a
+    view of a neighbouring type holding the same content (an integer of another width, a list with
+    another limit, a vector / byte string of another length), or the plain python value"""
+    try:
+        return mk_val(t, v)
+    except Exception as e0:
+        try:
+            ft = foreign_type(t, v)
+            if ft is not None:
+                return mk_val(ft, v)
+        except Exception:
+            pass
+        try:
+            return plain(t, v)
+        except Exception:
+            raise e0
+
+
 def apply_op(t, x, op):
     k = op[0]
     tk = kind(t)
     if k == 'set':
         i = int(op[1])
         if tk in ('vec', 'list'):
-            x[i] = mk_val(t[1], op[2])
+            x[i] = elem_arg(t[1], op[2])
         elif tk == 'cont':
-            setattr(x, 'f%d' % i, mk_val(t[1:][i], op[2]) if i < len(t) - 1 else 0)
+            setattr(x, 'f%d' % i, elem_arg(t[1:][i], op[2]) if i < len(t) - 1 else 0)
         elif tk in ('bv', 'bl'):
             x[i] = boolean(int(op[2]))
         else:
             raise ValueError("unsupported")
     elif k == 'app':
         if tk == 'list':
-            x.append(mk_val(t[1], op[1]))
+            x.append(elem_arg(t[1], op[1]))
         elif tk == 'bl':
             x.append(boolean(int(op[1])))
         else:
@@ -396,7 +485,7 @@ def apply_op(t, x, op):
         sel = int(op[1])
         opts = t[1:]
         if sel < len(opts) and opts[sel] != 'none':
-            x.change(selector=sel, value=mk_val(opts[sel], op[2]))
+            x.change(selector=sel, value=elem_arg(opts[sel], op[2]))
         elif sel < len(opts) and op[2] != 'none':
             x.change(selector=sel, value=mk_val_any(op[2]))
         else:
@@ -728,6 +817,8 @@ def run_case(line):
         return 'p.r=%s' % E(lambda: res_str(~UINT_BY_W[int(c[1])](int(c[2]))))
     if k == 'uctor':
         return 'p.r=%s' % E(lambda: str(int(UINT_BY_W[int(c[1])](int(c[2])))))
+    if k == 'ctor':
+        return run_ctor(c[1], c[2], c[3])
     if k == 'eq2':
         def eq2():
             x, y = mk_val(c[1], c[2]), mk_val(c[1], c[3])
